@@ -17,7 +17,7 @@ import scipy.sparse as sps
 PROP = "C37"
 N = {"quick": 200, "thorough": 4000}
 WORKERS = {"quick": 3, "thorough": 16}
-TIMEOUT = {"quick": 900, "thorough": 640}
+TIMEOUT = {"quick": 900, "thorough": 700}
 CASE_TIMEOUT = 120.0
 RULE = ("seeded block structures: 1-6 blocks of size 1-6 (cond <= 1e3, overall scale "
         "1e-2..1e2), full or structurally sparse blocks, csr/csc storage, optional "
@@ -166,10 +166,27 @@ def floor(tier):
 
 
 def warmup():
+    """Compile (or load) the numba kernel before reach counting.
+
+    After a change of matrix_operations.py the on-disk numba cache is stale and every
+    worker would compile the kernel at the same time; a file lock lets one worker compile
+    and the others load the fresh cache."""
+    import fcntl
+    import os
     import porepy as pp
     A = sps.csr_matrix(np.array([[2.0, 1.0], [1.0, 3.0]]))
-    pp.matrix_operations.invert_diagonal_blocks(A, np.array([2], dtype=np.int64),
-                                                method="numba")
+    lock = "/tmp/c37_numba_warmup.lock"
+    with open(lock, "w") as fh:
+        fcntl.flock(fh, fcntl.LOCK_EX)
+        try:
+            pp.matrix_operations.invert_diagonal_blocks(A, np.array([2], dtype=np.int64),
+                                                        method="numba")
+        finally:
+            fcntl.flock(fh, fcntl.LOCK_UN)
+    try:
+        os.unlink(lock)
+    except OSError:
+        pass
 
 
 # ----------------------------------------------------------------------------- check
